@@ -9,7 +9,7 @@ import DDS.Driver.Util
 namespace DDS.Driver.MapOps
 open DDS DDS.Driver.Util DDS.Driver.FloatOps
 
-def isMapCmd (c : String) : Bool := c ∈ ["mpchk", "mpalpha", "mscan", "mapenc", "mapeq"]
+def isMapCmd (c : String) : Bool := c ∈ ["mpchk", "mpalpha", "mscan", "mapenc", "mapeq", "mkalpha", "mkgamma", "mkbin"]
 
 def parseKind : String → Option MKind
   | "log" => some .log
@@ -92,6 +92,19 @@ def run (args : List String) (cmd : String) : String :=
     | _, _, _, _ => "bad-op"
   -- a scan of the implementation by the harness's direct oracle: nothing to model
   | "mscan", _ => "ok"
+  -- constructors (C13): accuracies outside (0,1) and bases not above one are refused
+  | "mkalpha", [_kind, a] =>
+    match parseF64 a with
+    | some a => if F64.le a (.fin 0) || F64.ge a (.fin 1) then "err" else "ok"
+    | none => "bad-op"
+  | "mkgamma", [_kind, g, _o] =>
+    match parseF64 g with
+    | some g => if F64.le g (.fin 1) then "err" else "ok"
+    | none => "bad-op"
+  | "mkbin", [_i, c] =>
+    match parseF64 c with
+    | some c => if F64.lt c (.fin 0) then "err" else "ok"
+    | none => "bad-op"
   | "mapenc", [kind, g, o, bytes] =>
     match parseKind kind, parseF64 g, parseF64 o, parseBytes bytes with
     | some k, some g, some o, some bs =>
